@@ -86,6 +86,21 @@ def rule_stat(ctx, rid):
         ok_idx = any(t[0] == 'sub' and t[2] in lookups for t in subterms(val))
         if not ok_idx:
             bad = 'the values are not indexed by the label lookup'
+        # exact argument shape: func(vals[lookup])  or, for a tuple of value vectors, func(*[v[lookup] for v in vals])
+        if val[0] in ('call', 'callv') and not bad:
+            fargs = val[2]
+            vals_t = S(fi.params[0])
+            okarg = False
+            if len(fargs) == 1 and fargs[0][0] == 'sub' and fargs[0][1] == vals_t and fargs[0][2] in lookups:
+                okarg = True
+            if len(fargs) == 1 and fargs[0][0] == 'starred' and fargs[0][1][0] == 'comp' and len(fargs[0][1][3]) == 1:
+                comp = fargs[0][1]
+                var, it, conds = comp[3][0]
+                if it == vals_t and not conds and comp[2][0] == 'sub' and comp[2][1] == var and comp[2][2] in lookups:
+                    okarg = True
+            if not okarg:
+                bad = 'the reducer does not receive exactly the value vector(s) restricted to the label lookup: %s' \
+                    % show(val)[:100]
     # every way of returning must go through that per-label loop: a shortcut that fills the result differently
     # (vectorised fast path, early return) is not "the function applied to exactly the samples of each label"
     c0 = 'every return path delivers the slot-by-slot filled result'
